@@ -52,6 +52,10 @@ pub enum Op {
     A(RowSpec),
     Raise(usize, i64),
     Status(usize, char),
+    /// `retract <ordinal> <t|->`: RETRACT at instant t (store route: `retracted_at`/`updated_at` = t; KML: wall clock)
+    Retract(usize, Option<u32>),
+    /// `supersede <old> <new> <t|->`: SUPERSEDE old BY new at instant t
+    Supersede(usize, usize, Option<u32>),
     Project(usize),
     SlotProject,
     Bad(String),
@@ -119,6 +123,8 @@ impl Op {
             })),
             ["raise", i, c] => Some(Op::Raise(i.parse().ok()?, c.parse().ok()?)),
             ["status", i, s] => Some(Op::Status(i.parse().ok()?, one_char(s, "arsex")?)),
+            ["retract", i, t] => Some(Op::Retract(i.parse().ok()?, opt(t)?)),
+            ["supersede", i, j, t] => Some(Op::Supersede(i.parse().ok()?, j.parse().ok()?, opt(t)?)),
             ["project", t] => Some(Op::Project(t.parse().ok()?)),
             ["slotproject"] => Some(Op::SlotProject),
             _ => None,
@@ -137,6 +143,8 @@ impl Op {
             Op::A(r) => format!("a {} {} {} {} {} {} {} {} {} {}", r.prop, show_opt(r.actor), show_list(&r.evs), r.stance, r.conf, r.mode, r.status, r.visible as u8, show_opt(r.from), show_opt(r.until)),
             Op::Raise(i, c) => format!("raise {i} {c}"),
             Op::Status(i, s) => format!("status {i} {s}"),
+            Op::Retract(i, t) => format!("retract {i} {}", show_opt(*t)),
+            Op::Supersede(i, j, t) => format!("supersede {i} {j} {}", show_opt(*t)),
             Op::Project(t) => format!("project {t}"),
             Op::SlotProject => "slotproject".into(),
             Op::Bad(l) => l.clone(),
@@ -146,7 +154,7 @@ impl Op {
     pub fn name(&self) -> &'static str {
         match self {
             Op::Reset => "reset", Op::Route(_) => "route", Op::Policy(_) => "policy", Op::Settings { .. } => "settings",
-            Op::Now(_) => "now", Op::Slot { .. } => "slot", Op::A(_) => "a", Op::Raise(..) => "raise", Op::Status(..) => "status",
+            Op::Now(_) => "now", Op::Slot { .. } => "slot", Op::A(_) => "a", Op::Raise(..) => "raise", Op::Status(..) => "status", Op::Retract(..) => "retract", Op::Supersede(..) => "supersede",
             Op::Project(_) => "project", Op::SlotProject => "slotproject", Op::Bad(_) => "bad",
         }
     }
@@ -265,28 +273,68 @@ fn subsets3() -> Vec<Vec<u32>> {
     (0..8u32).map(|m| (0..3).filter(|b| m >> b & 1 == 1).collect()).collect()
 }
 
-/// Every sequence of 1..=`n` supporting Assertions over 3 actors x the 8 subsets of 3 Evidence ids
-/// (24 key shapes; sequences, so every recording order of every multiset occurs), confidences fixed
-/// by position. 24 + 24^2 + ... cases.
-pub fn exhaustive_group_cases(n: usize) -> Vec<Vec<String>> {
+/// Every sequence of `from..=n` supporting Assertions over 3 actors x the 8 subsets of 3 Evidence
+/// ids (24 key shapes; sequences, so every recording order of every multiset occurs), confidences
+/// fixed by position. With `canonical`, only sequences in which actors and Evidence ids appear in
+/// first-occurrence order (one representative per renaming class: the code only compares keys for
+/// equality).
+pub fn exhaustive_group_cases(n: usize, canonical: bool, from: usize, emit: &mut dyn FnMut(Vec<String>)) {
     let shapes: Vec<(u32, Vec<u32>)> = (0..3u32).flat_map(|a| subsets3().into_iter().map(move |e| (a, e))).collect();
-    let confs = [3i64, 6, 4, 7, 5, 2];
-    let mut out = Vec::new();
-    for len in 1..=n {
+    // off the thresholds (30, 70 of 100), so that the status is compared exactly
+    let confs = [31i64, 62, 44, 73, 55, 27];
+    for len in from.max(1)..=n {
         let total = shapes.len().pow(len as u32);
-        for mut code in 0..total {
-            let mut lines = vec!["slot 0 0".to_string()];
-            for pos in 0..len {
-                let (a, e) = &shapes[code % shapes.len()];
+        'seq: for code0 in 0..total {
+            let mut code = code0;
+            let mut seq = Vec::with_capacity(len);
+            for _ in 0..len {
+                seq.push(&shapes[code % shapes.len()]);
                 code /= shapes.len();
-                // alternate sides by actor parity would mix sides; keep one side, vary the stance per case
+            }
+            if canonical {
+                let (mut next_a, mut next_e) = (0u32, 0u32);
+                for (a, e) in &seq {
+                    if *a > next_a { continue 'seq }
+                    if *a == next_a { next_a += 1 }
+                    for x in e {
+                        if *x > next_e { continue 'seq }
+                        if *x == next_e { next_e += 1 }
+                    }
+                }
+            }
+            let mut lines = vec!["policy b 0 1 100 70 30 50 1 osim".to_string(), "slot 0 0".to_string()];
+            for (pos, (a, e)) in seq.iter().enumerate() {
                 lines.push(Op::A(RowSpec { prop: 0, actor: Some(*a), evs: e.clone(), stance: 's', conf: confs[pos % confs.len()], mode: 's', status: 'a', visible: true, from: None, until: None }).render());
             }
             lines.push("project 0".into());
-            out.push(lines);
+            emit(lines);
         }
     }
-    out
+}
+
+/// k groups that look independent, then Assertions that bridge some of them, recorded in a random
+/// order (the shape in which an off-by-one of the merge loop shows).
+pub fn bridge_case(rng: &mut Rng) -> Vec<String> {
+    let pol = random_policy(rng);
+    let d = pol.den as i64;
+    let mode = pol.modes.chars().next().unwrap_or('s');
+    let mut lines = vec![Op::Policy(pol.clone()).render(), "slot 0 0".to_string()];
+    let k = rng.range(2, 5) as u32;
+    let stance = if rng.chance(1, 3) { 'r' } else { 's' };
+    let mut rows = Vec::new();
+    for g in 0..k {
+        rows.push(RowSpec { prop: 0, actor: Some(g), evs: vec![g], stance, conf: rng.range(0, d), mode, status: 'a', visible: true, from: None, until: None });
+    }
+    for b in 0..rng.range(1, 2) as u32 {
+        let mut evs: Vec<u32> = (0..k).filter(|_| rng.chance(1, 2)).collect();
+        if evs.len() < 2 { evs = vec![0, k - 1] }
+        let actor = if rng.chance(1, 3) { Some(rng.below(k as u64) as u32) } else { Some(20 + b) };
+        rows.push(RowSpec { prop: 0, actor, evs, stance, conf: rng.range(0, d), mode, status: 'a', visible: true, from: None, until: None });
+    }
+    rng.shuffle(&mut rows);
+    for r in rows { lines.push(Op::A(r).render()) }
+    lines.push("project 0".into());
+    lines
 }
 
 fn random_policy(rng: &mut Rng) -> PolicySpec {
@@ -326,6 +374,9 @@ pub fn random_row(rng: &mut Rng, nprops: usize, pol: &PolicySpec, nactors: u32, 
 
 /// A random history through the store route.
 pub fn random_case(rng: &mut Rng, i: u64) -> Vec<String> {
+    if i % 5 == 4 {
+        return bridge_case(rng);
+    }
     let mut lines = Vec::new();
     let pol = if rng.chance(1, 6) { PolicySpec::baseline() } else { random_policy(rng) };
     let use_settings = rng.chance(1, 8);
@@ -362,6 +413,21 @@ pub fn random_case(rng: &mut Rng, i: u64) -> Vec<String> {
     for _ in 0..n {
         lines.push(Op::A(random_row(rng, nprops, &pol, nactors, nevs, clean)).render());
     }
+    // RETRACT / SUPERSEDE with an explicit instant before, at or after the evaluation instants
+    // (lifecycle exclusion must not depend on when the claim was withdrawn)
+    if n > 0 && rng.chance(1, 3) {
+        let rows: Vec<RowSpec> = lines.iter().filter_map(|l| if let Op::A(r) = Op::parse(l) { Some(r) } else { None }).collect();
+        for _ in 0..rng.range(1, 2) {
+            let i = rng.usize(n);
+            let t = match rng.below(5) { 0 => None, 1 => Some(0), _ => Some(rng.below(14) as u32) };
+            let same: Vec<usize> = (0..n).filter(|j| *j != i && rows[*j].prop == rows[i].prop).collect();
+            if !same.is_empty() && rng.chance(1, 2) {
+                lines.push(Op::Supersede(i, *rng.pick(&same), t).render());
+            } else {
+                lines.push(Op::Retract(i, t).render());
+            }
+        }
+    }
     let target = if rng.chance(3, 4) { 0 } else { rng.usize(nprops) };
     match rng.below(10) {
         0 => lines.push("slotproject".into()),
@@ -389,7 +455,9 @@ pub fn random_case(rng: &mut Rng, i: u64) -> Vec<String> {
 /// (`CREATE ASSERTION`, `SET STRUCTURAL ("evidence", …)`, `valid_time`, `RETRACT ASSERTION`,
 /// `WITH EPISTEMIC {accept, material, policy, modes}`, `FOR TIME`).
 pub fn random_kml_case(rng: &mut Rng) -> Vec<String> {
-    let mut lines = vec!["route kml".to_string()];
+    // `kml`: evaluation instants in 2030 (after the wall-clock lifecycle changes);
+    // `kml-past`: evaluation instants in 2020 (before them) - validity windows cover them either way
+    let mut lines = vec![if rng.chance(1, 2) { "route kml".to_string() } else { "route kml-past".to_string() }];
     let k = 10u64;
     let d = 100i64;
     let mut pol = PolicySpec::baseline();
@@ -427,8 +495,15 @@ pub fn random_kml_case(rng: &mut Rng) -> Vec<String> {
         if let (Some(f), Some(u)) = (r.from, r.until) && f >= u { r.until = None }
         lines.push(Op::A(r).render());
     }
-    if rng.chance(1, 2) {
-        lines.push(format!("status {} r", rng.usize(n)));
+    if rng.chance(2, 3) {
+        let rows: Vec<RowSpec> = lines.iter().filter_map(|l| if let Op::A(r) = Op::parse(l) { Some(r) } else { None }).collect();
+        let i = rng.usize(n);
+        let same: Vec<usize> = (0..n).filter(|j| *j != i && rows[*j].prop == rows[i].prop).collect();
+        if !same.is_empty() && rng.chance(1, 2) {
+            lines.push(Op::Supersede(i, *rng.pick(&same), None).render());
+        } else {
+            lines.push(Op::Retract(i, None).render());
+        }
     }
     if rng.chance(1, 4) { lines.push("slotproject".into()) } else { lines.push("project 0".into()) }
     lines
